@@ -135,6 +135,8 @@ def run(ck):
                 ck.ob("DEFUSE", f.path, "upper-bound-term", ("arg", 6) in o0 and ("arg", 7) in o0 and ("lit", 64) in o0 and ("arg", 5) not in o0, "first commitment combines c, b and 2^64", f.loc(bi))
                 ck.ob("DEFUSE", f.path, "lower-bound-term", ("arg", 5) in o1 and ("arg", 7) in o1 and ("arg", 6) not in o1, "second commitment combines c and a", f.loc(bi))
 
+    enf_module_sweep(ck, crate("rs", CB), re.compile(r"concordium_base::bulletproofs::"), 1, "bulletproofs")
+
     # effect freedom of verifiers
     c = crate("rs", CB)
     cg = CallGraph([c])
